@@ -29,7 +29,7 @@ func runC10(ctx *Ctx) {
 	for _, t := range ctx.types() {
 		t := t
 		ctx.CheckRapid(string(t.Name), n, func(rt *rapid.T) *Case {
-			sub := rapid.SampledFrom([]string{"equal", "equal", "clone", "merge", "merge", "selfmerge", "reset", "checkinit", "json", "json", "text", "text"}).Draw(rt, "sub")
+			sub := rapid.SampledFrom([]string{"equal", "equal", "clone", "merge", "merge", "selfmerge", "sharereset", "reset", "checkinit", "json", "json", "text", "text"}).Draw(rt, "sub")
 			unknown := rapid.IntRange(0, 2).Draw(rt, "unknown") == 0 && sub != "json" && sub != "text"
 			canonical := sub == "json" || sub == "text" || rapid.Bool().Draw(rt, "canonical")
 			b, d := ctx.genTypeStream(rt, t, unknown, canonical)
@@ -37,7 +37,7 @@ func runC10(ctx *Ctx) {
 				return nil
 			}
 			c := &Case{Sub: sub, Type: string(t.Name), Bytes: hexs(b), Args: map[string]string{}}
-			if sub == "equal" || sub == "merge" {
+			if sub == "equal" || sub == "merge" || sub == "sharereset" {
 				switch rapid.IntRange(0, 2).Draw(rt, "wclass") {
 				case 0:
 					c.Bytes2 = c.Bytes
@@ -179,6 +179,57 @@ func checkC10(ctx *Ctx, c *Case) error {
 		if got := canonI(p); got != refCanon {
 			return fmt.Errorf("destination shares memory with the Merge source: %s", diffStr(got, refCanon))
 		}
+	case "sharereset":
+		// b receives a's lists by Set (what generic code such as Merge-like
+		// copiers does), then a is reset (proto.Reset, or implicitly by a JSON
+		// unmarshal) and refilled with another value: b must not change. Checked
+		// on the reference first (if dynamicpb's b changes the case is only counted).
+		dw, err := decodeD(t, unhex(c.Bytes2))
+		if err != nil {
+			return nil
+		}
+		share := func(a, b protoreflect.Message) int {
+			n := 0
+			a.Range(func(fd protoreflect.FieldDescriptor, v protoreflect.Value) bool {
+				if fd.IsList() {
+					b.Set(b.Descriptor().Fields().ByNumber(fd.Number()), v)
+					n++
+				}
+				return true
+			})
+			return n
+		}
+		db := t.NewD()
+		if share(d.ProtoReflect(), db.ProtoReflect()) == 0 {
+			ctx.Label("trivial: no populated list to share")
+			return nil
+		}
+		refB := canonD(db.ProtoReflect())
+		proto.Reset(d)
+		model.CopyInto(d.ProtoReflect(), dw.ProtoReflect(), model.Same)
+		if canonD(db.ProtoReflect()) != refB {
+			ctx.Label("reference: sharing a list then reset+refill disturbs the receiver (not asserted)")
+			return nil
+		}
+		pb := t.New()
+		share(p.ProtoReflect(), pb.ProtoReflect())
+		if got := canonI(pb); got != refB {
+			return fmt.Errorf("HARNESS: receiver differs right after sharing: %s", diffStr(got, refB))
+		}
+		if c.argInt("variant")%2 == 0 {
+			proto.Reset(p)
+		} else if js, err := protojson.Marshal(dw); err == nil {
+			if err := protojson.Unmarshal(js, p); err != nil {
+				proto.Reset(p)
+			}
+		} else {
+			proto.Reset(p)
+		}
+		wipe(p.ProtoReflect(), 0) // whatever the JSON path left
+		model.CopyInto(p.ProtoReflect(), dw.ProtoReflect(), model.Same)
+		if got := canonI(pb); got != refB {
+			return fmt.Errorf("a message that received lists from another message by Set changed when that other message was reset and refilled: %s", diffStr(got, refB))
+		}
 	case "selfmerge":
 		// source and destination are the same message: the reference appends
 		// repeated fields and unknown bytes to themselves
@@ -221,8 +272,14 @@ func checkC10(ctx *Ctx, c *Case) error {
 		if ge != nil || re != nil || !reflect.DeepEqual(g, r) {
 			return fmt.Errorf("protojson output differs semantically:\n generated %s\n reference %s", trunc(string(got), 600), trunc(string(ref), 600))
 		}
-		// parse the reference's output into both
+		// parse the reference's output into both: once into fresh messages, once
+		// into messages that already hold content (the codecs reset first)
 		p2, d2 := t.New(), t.NewD()
+		if c.argInt("variant")%2 == 1 {
+			p2 = model.BuildP(t, d.ProtoReflect())
+			d2 = t.NewD()
+			model.CopyInto(d2.ProtoReflect(), d.ProtoReflect(), model.Same)
+		}
 		u1 := protojson.Unmarshal(ref, p2)
 		u2 := protojson.Unmarshal(ref, d2)
 		if (u1 == nil) != (u2 == nil) {
@@ -259,6 +316,9 @@ func checkC10(ctx *Ctx, c *Case) error {
 				return fmt.Errorf("prototext output differs semantically: %s", diffStr(a, b))
 			}
 			p2 := t.New()
+			if c.argInt("variant")%3 == 1 {
+				p2 = model.BuildP(t, d.ProtoReflect()) // already populated
+			}
 			if err := prototext.Unmarshal(ref, p2); err != nil {
 				return fmt.Errorf("prototext.Unmarshal into the generated message failed: %v", err)
 			}
